@@ -170,7 +170,7 @@ def main():
             na.append({"property_id": pid, "reason": NOT_YET.get(pid, "check not built yet in this round (planned, see DESIGN.md §5/§12); not claimed until it runs cleanly")})
     m = {
         "version": 1,
-        "setup_cmd": "cp /repo/go.sum harness/go.sum && cd harness && GOFLAGS=-mod=mod GOPROXY=off GOSUMDB=off GOTOOLCHAIN=local go build -tags verif -o /dev/null ./cmd/vh",
+        "setup_cmd": "cp /repo/go.sum harness/go.sum && cd harness && GOFLAGS=-mod=mod GOPROXY=off GOSUMDB=off GOTOOLCHAIN=local go build -tags verif -o /dev/null ./cmd/vh && GOFLAGS=-mod=mod GOPROXY=off GOSUMDB=off GOTOOLCHAIN=local go build -race -tags verif -o /dev/null ./cmd/vh",
         "hooks": {
             "guard": "verif",
             "enable": "go build -tags verif (the harness module replaces github.com/go-text/typesetting by /repo's working tree)",
